@@ -63,8 +63,21 @@ TCase == Ev.op = "case"
     /\ ("C02" \in Check => P02) /\ ("C20" \in Check => P20) /\ ("C05" \in Check => P05)
     /\ ("C13" \in Check => P13)
 
+\* C06: NLP enhancement never drops what the user typed (compared at a limit >= database size, typo tolerance off)
+IdxIn(x, s) == CHOOSE i \in 1..Len(s) : s[i] = x
+TNlp == Ev.op = "nlp"
+    /\ ~Ev.panic
+    /\ (Ev.ntok <= 10 => SeqSet(Ev.off) \subseteq SeqSet(Ev.on))           \* every lexical match is still a candidate
+    /\ SeqSet(Ev.first4) \subseteq SeqSet(Ev.on)                           \* the first four content words are always retained
+    /\ (\A i \in 1..Len(Ev.oncmp) : Ev.oncmp[i] >= 0)
+    /\ Len(Ev.kw) <= Len(Ev.enh) /\ SubSeq(Ev.enh, 1, Len(Ev.kw)) = Ev.kw  \* the expanded list begins with the keywords
+    /\ Cardinality(SeqSet(Ev.enh)) = Len(Ev.enh)                           \* no duplicates
+    /\ (\A i, j \in 1..Len(Ev.kw) :                                       \* the user's own words keep the user's order
+            (i < j /\ Ev.kw[i] \in SeqSet(Ev.uw) /\ Ev.kw[j] \in SeqSet(Ev.uw)) => IdxIn(Ev.kw[i], Ev.uw) < IdxIn(Ev.kw[j], Ev.uw))
+    /\ Ev.same                                                            \* analysing the same text again gives the same analysis
+
 TraceInit == l = 1
-TraceNext == l <= Len(Trace) /\ l' = l + 1 /\ TCase
+TraceNext == l <= Len(Trace) /\ l' = l + 1 /\ (TCase \/ TNlp)
 TraceSpec == TraceInit /\ [][TraceNext]_l
 TraceAccepted ==
     LET d == TLCGet("stats").diameter IN
